@@ -1496,15 +1496,25 @@ class sptensor:
                [-0.8816..., -0.4718...]])
         """
         old = np.setdiff1d(np.arange(self.ndims), n).astype(int)
-        # tnt calculation is a workaround for missing sptenmat
-        mutatable_sptensor = (
-            self.copy().reshape((np.prod(np.array(self.shape)[old]), 1), old).squeeze()
-        )
-        if isinstance(mutatable_sptensor, (int, float, np.generic)):
+        if all(dim == 1 for dim in self.shape):
             raise ValueError(
                 "Cannot call nvecs on sptensor with only singleton dimensions"
             )
-        tnt = mutatable_sptensor.spmatrix().transpose()
+        # Transposed mode-n unfolding, built directly so that singleton modes survive
+        old_shape = tuple(np.array(self.shape)[old])
+        ncols = int(np.prod(old_shape))
+        if self.nnz > 0:
+            cols = (
+                tt_sub2ind(old_shape, self.subs[:, old])
+                if old.size > 0
+                else np.zeros(self.nnz, dtype=int)
+            )
+            tnt = sparse.coo_matrix(
+                (self.vals.transpose()[0], (cols, self.subs[:, n])),
+                shape=(ncols, self.shape[n]),
+            )
+        else:
+            tnt = sparse.coo_matrix((ncols, self.shape[n]))
         y = tnt.transpose().dot(tnt)
         if r < y.shape[0] - 1:
             # y is real symmetric: real eigenvectors, leading eigenvalue first
